@@ -30,6 +30,7 @@ type Env struct {
 	pkg    *ssa.Package
 	depth  int
 	oldMid bool // old() refers to a state inside the function (iteration start): locals are visible there
+	cur    *State // inside old(...): the current state, for now(...)
 }
 
 type bindErr struct{ msg string }
@@ -125,6 +126,7 @@ func (env *Env) eval(e Expr) (EV, error) {
 		}
 		n := *env
 		n.st = env.old
+		n.cur = env.st
 		return n.eval(x.X)
 	case *EUnary:
 		v, err := env.eval(x.X)
@@ -886,6 +888,18 @@ func (env *Env) call(x *ECall) (EV, error) {
 		return EV{}, fmt.Errorf("unsupported call form")
 	}
 	switch id.Name {
+	case "now":
+		// now(e) inside old(...): e (typically a local variable) is evaluated in the current state
+		if len(x.Args) != 1 {
+			return EV{}, fmt.Errorf("now(expr)")
+		}
+		if env.cur == nil {
+			return env.eval(x.Args[0])
+		}
+		n := *env
+		n.st = env.cur
+		n.cur = nil
+		return n.eval(x.Args[0])
 	case "sentAt":
 		// sentAt("elemtype", ch): the send log of a channel given as a raw reference
 		name, ok := x.Args[0].(*EStr)
@@ -1108,6 +1122,25 @@ func (env *Env) call(x *ECall) (EV, error) {
 			return EV{}, fmt.Errorf("mkiface(tag, ref)")
 		}
 		return EV{V: IfaceV{tg, rf}}, nil
+	case "sprintf":
+		// sprintf("format", args...): the text fmt.Sprintf produces (same term the engine uses)
+		if f, ok := x.Args[0].(*EStr); ok {
+			var ts []Term
+			for _, a := range args[1:] {
+				switch p := env.materialize(a).(type) {
+				case Term:
+					ts = append(ts, p)
+				case SliceV:
+					ts = append(ts, ex.content(env.st, p))
+				default:
+					return EV{}, fmt.Errorf("sprintf: unsupported argument")
+				}
+			}
+			if t, ok := ex.sprintfTerm(f.V, ts); ok {
+				return EV{V: t}, nil
+			}
+		}
+		return EV{}, fmt.Errorf("sprintf(\"format\", args...): unsupported format or argument sorts")
 	case "argsOf":
 		vals := make([]Val, len(args))
 		ts := make([]types.Type, len(args))
